@@ -123,6 +123,7 @@ def run(ctx):
     # ---------------- enumerant names through Display
     display_names(ctx)
     display_arms(ctx, S, rp)
+    ext_inst_names(ctx, rp)
     # ---------------- literal rule
     literal_rule(ctx, q, S, rp)
     # ---------------- line format and module walk
@@ -202,6 +203,48 @@ def display_names(ctx):
     ok = len(dim) == len(set(dim)) == len(enums["Dim"]["variants"])
     ctx.ob("display/Dim-prefix-strip-keeps-names-distinct", True if ok else False)
     ctx.extra["enumerant_display_arms"] = n
+
+
+def ext_inst_names(ctx, rp):
+    """'extended-instruction numbers by name when the imported set is GLSL.std.450 or OpenCL.std': for EVERY entry of the two
+    extended tables (the values rustc computes for the table constants) an OpExtInst with that number, in a module importing the
+    set, is disassembled with the entry's name; a number outside the table stays a number. (The lookups themselves are decided
+    for all 2^32 numbers in C09; this is the composition with the disassembler on the compiled crate.)"""
+    import gtables
+    import c03
+    T = gtables.load_tables()
+    le = c03.le
+    sets = {"glsl": "474c534c" "2e737464" "2e343530" "00000000", "opencl": "4f70656e" "434c2e73" "74640000"}
+    for key, name_hex in sets.items():
+        entries = T[key]
+        nums = {}
+        for e in entries:
+            nums.setdefault(e["opcode"], e["opname"])
+        probe = sorted(nums) + [max(nums) + 1, 0xffffffff]
+        bad = None
+        for num in probe:
+            nw = len(name_hex) // 8
+            words = c03.HEADER + le((2 + nw) << 16 | 11) + le(1) + name_hex + le(2 << 16 | 19) + le(2) + le(3 << 16 | 33) + le(3) + le(2) + \
+                le(5 << 16 | 54) + le(2) + le(4) + le(0) + le(3) + le(2 << 16 | 248) + le(5) + le(6 << 16 | 12) + le(2) + le(6) + le(1) + le(num) + le(6) + \
+                le(1 << 16 | 253) + le(1 << 16 | 56)
+            real = rp.ask("load_disassemble %s" % words)
+            line = [l for l in real.get("text", "").split("\n") if "OpExtInst " in l]
+            want = nums.get(num)
+            if "panic" in real or not line:
+                bad = (num, want, real, "no OpExtInst line")
+                break
+            toks = line[0].split()
+            shown = toks[toks.index("OpExtInst") + 3] if "OpExtInst" in toks and len(toks) > toks.index("OpExtInst") + 3 else None
+            if (want is not None and shown != want) or (want is None and shown != str(num)):
+                bad = (num, want, real, "prints %r" % shown)
+                break
+        if bad is None:
+            ctx.ob("ext-inst-names/%s/%d-numbers" % (key, len(nums)), True)
+            continue
+        num, want, real, what = bad
+        ctx.ob("ext-inst-names/%s" % key, False, what)
+        ctx.violation("disassemble/ext-inst-name/%s/%s" % (key, want or num), "OpExtInst %d of the imported set %s: %s, expected %s" % (
+            num, "GLSL.std.450" if key == "glsl" else "OpenCL.std", what, want or ("the bare number %d" % num)), {"cmd": "load_disassemble", "real": real})
 
 
 def display_arms(ctx, S, rp):
@@ -313,30 +356,61 @@ def literal_rule(ctx, q, S, rp):
             tcell = sym.Adt("binary::tracker::Type", tvar, fields)
             res = eng.run(fn, [val, sym.Ref(("h", "ty"), ())], mem={("h", "ty"): tcell})
             tag = "literal/%s/%s%s" % (ty, tvar, "" if tvar == "Float" else ("-signed" if z3.is_true(fields[1]) else "-unsigned"))
-            if len(res) != 1 or res[0].status != "return":
+            rets = [r_ for r_ in res if r_.status == "return"]
+            if not rets or len(rets) != len(res):
                 ctx.ob(tag, None, str(res[:2]))
                 continue
-            v = res[0].value
-            if not (isinstance(v, sym.Adt) and v.ty == "ToString"):
-                ctx.ob(tag, None, repr(v)[:200])
-                continue
-            shown_ty, shown = v.variant, v.fields[0]
-            if tvar == "Float":
-                good = shown_ty == "f%d" % width and isinstance(shown, sym.Adt) and shown.ty == "Float" and shown.fields[0].eq(val)
-            elif z3.is_true(fields[1]):
-                good = shown_ty == "i%d" % width and z3.is_bv(shown) and shown.size() == width
-                if good:
-                    st, m = q.check([shown != val], "literal-signed")
-                    good = st == "unsat"
-            else:
-                good = shown_ty == "u%d" % width and z3.is_bv(shown) and shown.size() == width and shown.eq(val)
-            ctx.ob(tag, True if good else False, None if good else "renders <%s as ToString>(%s)" % (shown_ty, shown))
-            if not good:
-                probe = (1 << (width - 1)) + 5 if tvar != "Float" else 0x40490fdb
-                real = rp.ask("disas_constant %d %s %d %d" % (width, "float" if tvar == "Float" else "int", 1 if (tvar == "Integer" and z3.is_true(fields[1])) else 0, probe))
-                ctx.violation("disassemble/literal/%s-%s" % (ty, tag.split("/")[-1]),
-                              "a %d-bit %s literal is rendered through %s; e.g. bit pattern %d prints as %s" % (width, tag.split("/")[-1], shown_ty, probe, real.get("text")),
-                              {"cmd": "disas_constant ...", "real": real})
+            bad = None
+            for r_ in rets:
+                v = r_.value
+                if not (isinstance(v, sym.Adt) and v.ty == "ToString"):
+                    bad = ("renders %s" % repr(v)[:120], None)
+                    break
+                shown_ty, shown = v.variant, v.fields[0]
+                if tvar == "Float":
+                    ok_ = shown_ty == "f%d" % width and isinstance(shown, sym.Adt) and shown.ty == "Float" and shown.fields[0].eq(val)
+                    mdl = None
+                    if not ok_:
+                        st_, mdl = q.check(list(r_.pc), "literal-float-path")
+                        ok_ = st_ == "unsat"
+                else:
+                    want_ty = ("i%d" if z3.is_true(fields[1]) else "u%d") % width
+                    ok_ = shown_ty == want_ty and z3.is_bv(shown) and shown.size() == width
+                    mdl = None
+                    if ok_:
+                        st_, mdl = q.check(list(r_.pc) + [shown != val], "literal-int")
+                        ok_ = st_ == "unsat"
+                    else:
+                        st_, mdl = q.check(list(r_.pc), "literal-int-path")
+                        ok_ = st_ == "unsat"
+                if not ok_:
+                    bad = ("renders <%s as ToString>(%s)" % (shown_ty, shown), mdl)
+                    break
+            ctx.ob(tag, True if bad is None else False, None if bad is None else bad[0])
+            if bad is not None:
+                mdl = bad[1]
+                probe = mdl.eval(val, model_completion=True).as_long() if mdl is not None else ((1 << (width - 1)) + 5 if tvar != "Float" else 0x40490fdb)
+                wdecl = mdl.eval(fields[0], model_completion=True).as_long() if mdl is not None else width
+                if width == 64:
+                    wdecl = 64
+                elif wdecl == 64 or wdecl == 0:
+                    wdecl = width
+                signed_ = 1 if (tvar == "Integer" and z3.is_true(fields[1])) else 0
+                cmd = "disas_constant %d %s %d %d" % (wdecl, "float" if tvar == "Float" else "int", signed_, probe)
+                real = rp.ask(cmd)
+                text = str(real.get("text", ""))
+                if tvar == "Float":
+                    expect = None
+                elif signed_:
+                    expect = str(probe - (1 << width) if probe >> (width - 1) else probe)
+                else:
+                    expect = str(probe)
+                if "panic" in real or (expect is not None and text.split(" ")[-1] != expect) or (expect is None and mdl is None):
+                    ctx.violation("disassemble/literal/%s-%s" % (ty, tag.split("/")[-1]),
+                                  "a %d-bit %s literal of a type declared with width %d is rendered through %s; bit pattern %d prints as %r%s" % (
+                                      width, tag.split("/")[-1], wdecl, bad[0], probe, text, (", expected %s" % expect) if expect else ""), {"cmd": cmd, "real": real})
+                else:
+                    ctx.inconclusive.append((tag, "model-only deviation (%s); the compiled crate prints %r for %d" % (bad[0], text, probe)))
 
 
 def line_format(ctx, S):
